@@ -255,8 +255,8 @@ def check(rep, F, tier, replay=None):
             if not any("get_bootstraps@" in x for x in o):
                 continue
             n_b += 1
-            if "BTreeSet" in to and to.endswith("::len"):
-                has_len = True
+            if "BTreeSet" in to and (to.endswith("::len") or to.endswith("::is_empty") or to.endswith("::into_iter") or to.endswith("::iter")):
+                has_len = True  # the merged collection that is counted / walked is the ordered set
             if "BTreeSet" in to and to.endswith("::extend"):
                 has_ext = True
             if ("Vec<" in to or "vec::Vec" in to or "Chain" in to or to.endswith("Iterator::collect") or to.endswith("Iterator::chain")) and "ByronAddress" not in to:
